@@ -341,3 +341,51 @@ prop(dict(
          "distinct = distinct (start, op list)",
     assumptions=COMMON_ASSUME + ["profile choice on a fresh header is left to the implementation; wire survival is judged on value content per id (nil and empty are the same value)"],
 ))
+
+
+# ---------------------------------------------------------------- C17
+def rand_c17(seed, tier, cases=None):
+    rng = random.Random(seed * 7919 + 17)
+    out = []
+    n = 600 if tier == "quick" else 30000
+    for _ in range(n):
+        codec = rng.choice(["audio", "tcc", "playout", "abssend", "abscapture"])
+        if rng.random() < 0.5:
+            if codec == "audio":
+                v = dict(level=rng.randint(0, 255), voice=rng.random() < 0.5)
+            elif codec == "tcc":
+                v = dict(seq=rng.randint(0, 65535))
+            elif codec == "playout":
+                v = dict(min=rng.choice([rng.randint(0, 4095), rng.randint(0, 65535)]), max=rng.choice([rng.randint(0, 4095), rng.randint(0, 65535)]))
+            elif codec == "abssend":
+                v = dict(ts=rng.randint(0, 16777215))
+            else:
+                h = rng.random() < 0.5
+                v = dict(ts=[rng.randint(0, 255) for _ in range(8)], hasoff=h, off=[rng.randint(0, 255) for _ in range(8)] if h else [0] * 8)
+            out.append(dict(fam="C17", kind="marshal", codec=codec, v=v, **{"class": codec + "_rand_value"}))
+        else:
+            size = dict(audio=1, tcc=2, playout=3, abssend=3, abscapture=8)[codec]
+            ln = rng.randint(0, 18 if codec == "abscapture" else size + 2)
+            prev = [rng.randint(0, 255) for _ in range(rng.choice([0, size, 16, 18]))]
+            out.append(dict(fam="C17", kind="unmarshal", codec=codec, bytes=[rng.randint(0, 255) for _ in range(ln)], prev=prev,
+                            **{"class": codec + "_rand_bytes"}))
+    return out
+
+
+prop(dict(
+    id="C17", fam="C17",
+    mc=[("ExtCodecsMC.tla", "ExtCodecsMC.cfg")],
+    gen=[("ExtCodecsGen.tla", "ExtCodecsGen.cfg", {"thorough": {"Stride": "1", "Sweep": "TRUE"}})],
+    rand=rand_c17,
+    trace=("ExtCodecsTrace.tla", "ExtCodecsTrace.cfg"),
+    shards={"quick": 1, "thorough": 12},
+    workers=16,
+    nontrivial=lambda c: True,
+    mandatory=["audio_value", "audio_out_of_range", "tcc_value", "playout_value", "playout_out_of_range", "abssend_value", "abscapture_with_offset",
+               "abscapture_exact_reused", "abscapture_short", "playout_axis", "audio_axis"],
+    rule="TLC enumerates: all 2x256 audio levels; transport-cc values (quick: stride + boundaries, thorough: all 2^16); playout-delay axes (each 12-bit field "
+         "with the other at boundary values) plus out-of-range values; abs-send-time byte axes and boundaries; abs-capture-time per-byte axes with and without offset; "
+         "decoder inputs of every length 0..size+2 (abs-capture 0..18) x five contents x five earlier inputs (receiver reuse). Thorough adds 2x256 sweep cases, each covering "
+         "2^16 points of a 2^24 domain (field separability + round trip counted by the harness, judged = 0). distinct = distinct case records",
+    assumptions=COMMON_ASSUME + ["2^24 domains: TLC judges the axes exactly and the harness-counted separability/round-trip violations to be zero (axes-exact and separable => bit-exact on the product)"],
+))
